@@ -154,7 +154,7 @@ Print Assumptions C20_claim_refuses_excess_fee.
    clear, a call returns what a freshly decoded proof with the present count / hashes / flag bits returns *)
 From GE Require Import Model.MerkleHist Proofs.MerkleHist.
 Theorem C20_history_verdict_is_fresh_verdict : forall o o' res,
-  h_bad o = false -> hstep o HExtract = Some (o', Some res) ->
+  h_bad o = false -> Forall (fun h => hash32 h = true) (h_hashes o) -> hstep o HExtract = Some (o', Some res) ->
   res = extract bytes node_hash bytes_eqb (h_count o) (h_hashes o) (h_bits o).
 Proof. exact history_verdict_is_fresh_verdict. Qed.
 Print Assumptions C20_history_verdict_is_fresh_verdict.
@@ -166,14 +166,27 @@ Print Assumptions C20_history_success_keeps_fresh.
 
 (* FBad is a field of the value and ExtractMatches never clears it: an object carrying FBad = true is
    refused whatever its other fields are (shown on the fields of a genuine proof in the example) *)
-Theorem C20_history_sticky_fbad : forall (A : Type) (H : A -> A -> A) (eqA : A -> A -> bool) n hashes bits,
-  extract_hist A H eqA true n hashes bits = (None, true).
+Theorem C20_history_sticky_fbad : forall (A : Type) (H : A -> A -> A) (eqA : A -> A -> bool) (okA : A -> bool) n hashes bits,
+  extract_hist A H eqA okA true n hashes bits = (None, true).
 Proof. exact extract_hist_sticky. Qed.
 Print Assumptions C20_history_sticky_fbad.
 
 Theorem C20_history_sticky_fbad_example :
   exists n hashes bits r,
     extract term Hn term_eqb n hashes bits = Some r /\
-    fst (extract_hist term Hn term_eqb true n hashes bits) = None.
+    fst (extract_hist term Hn term_eqb (fun _ => true) true n hashes bits) = None.
 Proof. exact history_sticky_fbad_example. Qed.
 Print Assumptions C20_history_sticky_fbad_example.
+
+(* altered hash LENGTH (only reachable through the exported TxHashes field; the wire decoder yields 32-byte
+   entries): chainhash.NewHash fails on an entry that is not 32 bytes long, so such an object is refused *)
+Theorem C20_history_bad_length_refused : forall o o' res,
+  ~ Forall (fun h => hash32 h = true) (h_hashes o) -> hstep o HExtract = Some (o', Some res) -> res = None.
+Proof. exact history_bad_length_refused. Qed.
+Print Assumptions C20_history_bad_length_refused.
+
+Theorem C20_extract_accepts_only_valid_entries : forall (A : Type) (H : A -> A -> A) (eqA : A -> A -> bool) (okA : A -> bool)
+  bad n hashes bits r bad',
+  extract_hist A H eqA okA bad n hashes bits = (Some r, bad') -> Forall (fun x => okA x = true) hashes.
+Proof. exact extract_hist_accepts_only_valid_entries. Qed.
+Print Assumptions C20_extract_accepts_only_valid_entries.
